@@ -282,7 +282,11 @@ def analyse_unit(name, canary=False, rlimit=None, seed=None):
                     break
     res["overlay_props"] = overlay_props
     # ---- run verus
-    vr = verus_run(meta["path"], rlimit=rlimit or unit.get("rlimit"), seed=seed)
+    if canary:
+        # vacuity guard: only the extracted functions (root module) matter, and "not proved within a small budget" is the expected outcome
+        vr = verus_run(meta["path"], extra=["--verify-root"], rlimit=3, seed=seed)
+    else:
+        vr = verus_run(meta["path"], rlimit=rlimit or unit.get("rlimit"), seed=seed)
     res["wall_s"] = vr["wall_s"]
     res["cmd"] = vr["cmd"]
     res["cached"] = vr["cached"]
